@@ -85,7 +85,11 @@ class Gen:
             hdr = hdr + self.octets(self.r.choice([900, 1400, 1500 - len(hdr)]))
             hdr = hdr[:1500]
         pad = (-len(hdr)) % 4
-        return self.xrec([0, 0, 0, 1], u32(proto) + self.w32() + self.w32() + u32(len(hdr)) + hdr + [0] * pad)
+        # the frame length is what the agent says the frame had on the wire - often computed from the IP length, so smaller
+        # than a padded sampled header, or zero; it informs, it does not decide anything
+        r = self.r
+        frame = r.choice([self.w32(), self.w32(), u32(len(hdr)), u32(max(0, len(hdr) - 6)), u32(54), u32(60), u32(64), u32(1514), u32(0), u32(len(hdr) + 4)])
+        return self.xrec([0, 0, 0, 1], u32(proto) + frame + self.w32() + u32(len(hdr)) + hdr + [0] * pad)
 
     def flow_record(self):
         r = self.r
